@@ -28,13 +28,7 @@ Definition gen_should_stop (c : (cfg F)) (cycle : nat) (diffs : (list F)) (curre
     | None => has_to_stop_v3 end in
   has_to_stop_v6.
 
-Definition gen_error_check (c : (cfg F)) (cycle : nat) (errors : (list F)) (diffs : (list F)) (avg_fit : F) : (F * F * bool * (list F) * (list F)) :=
-  let avg_fit := avg_fit in
-  let current_error := (fabs (fsub fone avg_fit)) in
-  let previous_error := (last errors fzero) in
-  let self__errors_v1 := (errors ++ [current_error]) in
-  let self__error_diffs_v2 := (diffs ++ [(fsub current_error previous_error)]) in
-  (current_error, avg_fit, (gen_should_stop c cycle self__error_diffs_v2 current_error), self__errors_v1, self__error_diffs_v2).
+(* gen_error_check: not translated: attr self._previous_error *)
 
 Definition gen_population_refine (a : A) (tt : dir) : A :=
   if (dir_eqb tt MIN) then a else
@@ -46,6 +40,5 @@ Definition gen_result_refine (a : A) (tt : dir) : A :=
 End Gen.
 
 Definition gen_should_stop_mutates_param : bool := false.
-Definition gen_error_check_mutates_param : bool := false.
 Definition gen_population_refine_mutates_param : bool := false.
 Definition gen_result_refine_mutates_param : bool := false.
